@@ -12,6 +12,7 @@
   `genTot − ⌊genTot·pct/10000⌋`.  Only property theorems live here (helpers: Lemmas/StakingReward.lean).
 -/
 import MxModel.Lemmas.StakingReward
+import MxModel.Lemmas.StakingEnterMerge
 
 namespace Mx.C06Staking
 open Mx.Staking
@@ -124,6 +125,32 @@ theorem no_retro_entry {s s' : St} {c orig : Nat} {p : Pay} {nv : Option Nat} {o
   have hrps := (eff_settled_block (claimCore_eff h) hb).1
   rw [hfirst, hr, hrps] at hpaid
   simpa using hpaid
+
+/-- **no_retro_entry_merge** (farm-staking).  `stakeFarm` WITH farm tokens sent along (any number of
+    extra payments): the position created has amount `amount + Σ paid`, and at EVERY future index `R`
+    it can claim at most `amount·(R − index settled to the entering block)` — the fresh stake earns
+    from NOW on only — plus what the merged-in positions could already claim at their own entry
+    indexes (pre-state attributes); at `R = s'.rps` the fresh stake contributes 0. -/
+theorem no_retro_entry_merge {s s' : St} {c orig amount : Nat} {v : Bool} {adds : List Pay} {o : Out}
+    (h : stakeCore s c orig amount v adds = some (s', o)) :
+    ∃ m : Attrs, s'.md o.a = some (.pos m) ∧ m.amount = amount + (adds.map (·.2)).sum ∧
+      (∀ R, m.amount * (R - m.rps) ≤ amount * (R - s'.rps) +
+        (adds.map fun p => p.2 * (match posOf s.md p.1 with | some a => R - a.rps | none => 0)).sum) ∧
+      m.amount * (s'.rps - m.rps) ≤
+        (adds.map fun p => p.2 * (match posOf s.md p.1 with | some a => s'.rps - a.rps | none => 0)).sum := by
+  obtain ⟨m, h1, _, h2, h3⟩ := EnterMerge.stakeCore_merge_no_retro h
+  have s2 : ∀ R (l : List Pay), payW (potW s.md R) l =
+      (l.map fun p => p.2 * (match posOf s.md p.1 with | some a => R - a.rps | none => 0)).sum := by
+    intro R l; induction l with
+    | nil => rfl
+    | cons p r ih =>
+      have e : potW s.md R p.1 = (match posOf s.md p.1 with | some a => R - a.rps | none => 0) := by
+        unfold potW; cases posOf s.md p.1 <;> rfl
+      simp only [payW, List.map_cons, List.sum_cons, ih, e, Nat.mul_comm]
+  refine ⟨m, h1, by rw [h2, payTot_eq], fun R => by rw [← s2]; exact h3 R, ?_⟩
+  have := h3 s'.rps
+  rw [Nat.sub_self, Nat.mul_zero, Nat.zero_add, s2] at this
+  exact this
 
 /-- admin changes are never retroactive: `setMaxApr`, `setPerBlockRewardAmount`,
     `endProduceRewards`, `setBoostedYieldsRewardsPercentage` equal "settle under the OLD
